@@ -78,11 +78,10 @@ pub fn contours(path: &Path, close: bool) -> Vec<Vec<P>> {
                 last = pt(p3);
             }
             PathSegment::Close => {
+                // an explicit Close always draws the closing segment
                 if let Some(f) = cur.first().cloned() {
                     last = (f.fx, f.fy);
-                    if close {
-                        cur.push(f);
-                    }
+                    cur.push(f);
                 }
             }
         }
